@@ -487,17 +487,7 @@ func tail(s string, n int) string {
 
 func deathClass(f *failure, k *kase) (class, got string) {
 	reason, where := fatalClass(f.stderr, f.wedged)
-	target := k.Fn
-	if target == "" {
-		target = k.Space
-		if k.Stratum != "" {
-			root := k.Stratum
-			if i := strings.IndexByte(root, '/'); i > 0 {
-				root = root[:i]
-			}
-			target += ":" + root
-		}
-	}
+	target := caseTarget(k)
 	if where == "" {
 		where = target
 	}
